@@ -575,7 +575,137 @@ class ConvPart:
         return M.shrink(case)
 
 
-PARTS = [MergePart, SubsetPart, WrapPart, ConvPart]
+# ------------------------------------------------------------------------------------------ merges along an axis the inputs already have as a singleton
+
+def _gen_single_ext(rng, shape, sdim, aff, sample_cls, j):
+    """valid extension on a shape whose last axis is singular, with keys in the SAMPLES class of that axis (stored as
+    1-element lists: multiplicity one, outside the nondegenerate domain of the Coq model, but well inside what the library
+    supports: a later merge along that axis extends exactly these lists) plus constants and per-slice keys"""
+    d = X.dims({'shape': shape, 'sdim': sdim})
+    ents = {'samp_a': (sample_cls, [rng.choice([1, 2, 3]) + 10 * j] * X.mult(d, sample_cls)),
+            'samp_list': (sample_cls, [[j, 'x']] * X.mult(d, sample_cls)),
+            'c_same': ('GConst', ['k']), 'c_diff': ('GConst', [j])}
+    if rng.random() < 0.5:
+        ents['samp_same'] = (sample_cls, ['s'] * X.mult(d, sample_cls))
+    if sdim is not None and shape[sdim] > 1 and rng.random() < 0.7:
+        ents['per_slice'] = ('GSlices', [j * 100 + i for i in range(X.mult(d, 'GSlices'))])
+    if len(shape) == 5 and shape[3] > 1 and rng.random() < 0.6:
+        ents['per_time'] = ('TSamples', [j + 0.5 * i for i in range(X.mult(d, 'TSamples'))])
+    return X.mk_E(shape, sdim, aff, ents)
+
+
+def run_single(case):
+    """extension level and wrapper level merge of inputs that already HAVE the merge axis (as a singleton): snapshots of every
+    input by value around two merges of the same objects; every input must also still be a valid extension"""
+    np, dcmmeta = X._imports()
+    dim = case['dim']
+    out = {}
+
+    def valid(x):
+        try:
+            x.check_valid()
+            return True
+        except Exception:       # noqa: BLE001
+            return False
+
+    exts = [build_ext(E) for E in case['exts']]
+    before = [_snap(x) for x in exts]
+    try:
+        r = dcmmeta.DcmMetaExtension.from_sequence(exts, dim)
+        out['ext_merge'] = {'shape': [int(v) for v in r.shape]}
+    except Exception as e:      # noqa: BLE001
+        r = None
+        out['ext_merge'] = _err_obs(e)
+    out['ext_untouched'] = [_snap(x) == b for x, b in zip(exts, before)]
+    out['ext_valid'] = [valid(x) for x in exts]
+    if r is not None:
+        first = ext_to_json(r)
+        try:
+            out['ext_reuse_same'] = ext_to_json(dcmmeta.DcmMetaExtension.from_sequence(exts, dim)) == first
+        except Exception as e:      # noqa: BLE001
+            out['ext_reuse_same'] = False
+        out['ext_untouched2'] = [_snap(x) == b for x, b in zip(exts, before)]
+    ws = [X.build_data_wrapper(E, {'shape': E['shape'], 'slice': E['sdim'], 'aff': E['aff']}) for E in case['exts']]
+    wb = [_wsnap(w) for w in ws]
+    try:
+        m = dcmmeta.NiftiWrapper.from_sequence(ws, dim)
+        out['w_merge'] = {'shape': [int(v) for v in m.nii_img.shape]}
+    except Exception as e:      # noqa: BLE001
+        out['w_merge'] = _err_obs(e)
+    out['w_untouched'] = [_wsnap(w) == b for w, b in zip(ws, wb)]
+    out['w_valid'] = [valid(w.meta_ext) for w in ws]
+    return out
+
+
+def oracle_single(case, obs):
+    if 'crash' in obs:
+        return 'harness: %s' % obs.get('msg')
+    for key, what in (('ext_untouched', 'DcmMetaExtension.from_sequence'), ('ext_untouched2', 'the second DcmMetaExtension.from_sequence'),
+                      ('w_untouched', 'NiftiWrapper.from_sequence')):
+        for i, u in enumerate(obs.get(key, [])):
+            if not u:
+                return '%s along dim %d (an axis the inputs already have as a singleton) modified input %d' % (what, case['dim'], i)
+    for key, what in (('ext_valid', 'DcmMetaExtension.from_sequence'), ('w_valid', 'NiftiWrapper.from_sequence')):
+        for i, u in enumerate(obs.get(key, [])):
+            if not u:
+                return 'after %s input %d no longer passes check_valid' % (what, i)
+    if obs.get('ext_reuse_same') is False:
+        return 'a second merge of the same input objects gives a different result'
+    return None
+
+
+class SingletonAxisPart:
+    NAME = 'singleton'
+    CORR_CHECK = None
+    IMPL_TIMEOUT = 40
+    RULE = ('2-4 inputs of shape (X,Y,Z,1) with ("time","samples") keys merged along dim 3, or (X,Y,Z,T,1) with ("vector","samples") '
+            'keys merged along dim 4 (the inputs already HAVE the merge axis, so the per-sample lists of the first input are the ones '
+            'that would grow), scalar and list values, equal and differing between inputs, plus constants / per-slice / per-time keys; '
+            'extension level (twice, same objects) and NiftiWrapper level; snapshots by value and check_valid of every input; oracle '
+            'only (varying classes of multiplicity one are outside the nondegenerate domain of the Coq model)')
+
+    @staticmethod
+    def gen_cases(rng, tier):
+        out = []
+        for _ in range(40 if tier == 'quick' else 300):
+            sdim = rng.choice([0, 1, 2, 2, None])
+            sh = [rng.randint(1, 3) for _ in range(3)]
+            if rng.random() < 0.5:
+                shape, dim, cls = sh + [1], 3, 'TSamples'
+            else:
+                shape, dim, cls = sh + [rng.randint(2, 3), 1], 4, 'VSamples'
+            aff = gen_affine(rng, rng.choice(['diag', 'perm']))
+            n = rng.randint(2, 4)
+            out.append({'kind': 'singleton/dim%d/%dD' % (dim, len(shape)), 'dim': dim,
+                        'exts': [_gen_single_ext(rng, shape, sdim, aff, cls, j) for j in range(n)]})
+        return out
+
+    run_impl = staticmethod(run_single)
+    oracle = staticmethod(oracle_single)
+
+    @staticmethod
+    def signature(case, obs, msg):
+        return 'singleton-axis/%s' % ('modified-input' if 'modified' in msg else 'input-invalid' if 'check_valid' in msg else 'reuse')
+
+    @staticmethod
+    def nontrivial(case, obs):
+        return isinstance(obs, dict) and ('shape' in obs.get('ext_merge', {}) or 'shape' in obs.get('w_merge', {}))
+
+    @staticmethod
+    def shrink(case):
+        if len(case['exts']) > 2:
+            for i in range(1, len(case['exts'])):
+                c = copy.deepcopy(case)
+                del c['exts'][i]
+                yield c
+        for k in keys_of(*case['exts']):
+            c = copy.deepcopy(case)
+            for E in c['exts']:
+                E['entries'] = [e for e in E['entries'] if e[0] != k]
+            yield c
+
+
+PARTS = [MergePart, SubsetPart, WrapPart, ConvPart, SingletonAxisPart]
 
 # image level (integrator): the image-level correspondence parts snapshot every input image (data bytes, affine) and
 # input extension before/after NiftiWrapper.from_sequence / split; their 'C13:' oracle messages report a modified input
